@@ -130,7 +130,18 @@ def build(case):
         if front_route:
             app.add(front_route, inherit_slashes=(front != 'same-nb'))
         warm(app)
-        app.add(SubApplication(emb['prefix'], inner, inherit_slashes=emb['inherit_sub']))
+        # the same choice said in three ways (round 14): the SubApplication's own flag; a plain tuple with the choice given to
+        # add(); a SubApplication carrying the *opposite* flag, overridden by what add() is told. Picked by a pure function
+        # of the case (no new draw), or named by the complete family
+        how = case.get('how')
+        if how is None:
+            how = (len(case['segs'][0]) + case['mut_pos'] + case['nmulti']) % 3
+        if how == 0:
+            app.add(SubApplication(emb['prefix'], inner, inherit_slashes=emb['inherit_sub']))
+        elif how == 1:
+            app.add((emb['prefix'], inner), inherit_slashes=emb['inherit_sub'])
+        else:
+            app.add(SubApplication(emb['prefix'], inner, inherit_slashes=not emb['inherit_sub']), inherit_slashes=emb['inherit_sub'])
         mode = case['app_mode'] if emb['inherit_sub'] else m1
         prefix = emb['prefix'].rstrip('/')
     else:
@@ -288,10 +299,36 @@ def _d3(table, exp, path):
 
 def shards(tier, seed):
     n = 600 if tier == 'quick' else 36000
-    return [{'n': n} for _ in range(16)]
+    return [{'n': n} for _ in range(16)] + [{'part': 'styles'}]
+
+
+def style_cases():
+    """complete: way of saying whether the embedded routes inherit x inherit or not (embedding, inner route) x slash mode of
+    the embedding application / the embedded one / the route x branch route reached canonically, without its slash, with a
+    doubled slash x GET / POST"""
+    modes = ['redirect', 'rewrite', 'strict']
+    out = []
+    for how in (0, 1, 2):
+        for inherit_sub in (True, False):
+            for inherit in (True, False):
+                for app_mode in modes:
+                    for inner_mode in modes:
+                        for route_mode in modes:
+                            for mutation in ('canonical', 'notrail', 'double'):
+                                for method in ('GET', 'POST'):
+                                    out.append({'kind': 'single', 'branch': True, 'methods': None, 'app_mode': app_mode, 'route_mode': route_mode,
+                                                'inherit': inherit, 'embed': {'inner_mode': inner_mode, 'inherit_sub': inherit_sub, 'prefix': '/sub'},
+                                                'decoy': False, 'front': None, 'front_mode': 'redirect', 'decoy_methods': None, 'prime': None,
+                                                'late': False, 'segs': ['s1', 's2', 's3'], 'nmulti': 1, 'mutation': mutation, 'mut_pos': 1,
+                                                'query': 'a=1', 'method': method, 'script': '', 'how': how})
+    return out
 
 
 def run_shard(spec, ctx):
+    if spec.get('part') == 'styles':
+        ctx.exhaustive = True
+        ctx.loop(style_cases(), body, kind='case', max_sigs=8)
+        return
     ctx.hyp(strategy(), body, spec['n'], kind='case')
 
 
